@@ -30,6 +30,8 @@ var (
 	Vals = []sdk.ValAddress{addr(0x11), addr(0x12), addr(0x13)}
 	// alliance denoms have equal length (bound: byte comparisons never straddle a symbolic time)
 	Denoms = []string{"alpha", "bravo"}
+	// DustDenom sorts before every member of Denoms (asset iteration is in denom order)
+	DustDenom = "aaaaa"
 )
 
 // Time window for block times: 2020-01-01 .. 2100-01-01 (Unix seconds).
